@@ -120,8 +120,8 @@ package db
 //@   ensures result1 != nil ==> !lvhas(l.intx, l.txcache == nil, old(l.txcache.kvhas), l.cache == nil, old(l.cache.kvhas), old(l.maindb.kvhas), bytes(key)) || blen(lvval(l.intx, l.txcache == nil, old(l.txcache.kvhas), old(l.txcache.kvval), l.cache == nil, old(l.cache.kvhas), old(l.cache.kvval), old(l.maindb.kvval), bytes(key))) == 0
 
 //@ trusted func newMemDB
-//@   opt fresh
 //@   frame allocates
+//@   ensures fresh(result) && result != nil
 //@   ensures forall k Bytes :: !result.kvhas[k]
 
 // Set writes into the open transaction if there is one, otherwise into the cache; never into main
